@@ -225,19 +225,45 @@ def task_orbital_time(ctx, scale_name):
     lin_term = _r(lin_t.a.reshape(-1)[0])
     u = z3.Real(f'u{k}')
     ph_u = z3.substitute(ph0, (lin_term, u))
-    if any(str(v) == 't' for v in _vars(ph_u)):
-      ctx.error(f'orbital_time.{nm}', 'phase depends on t other than through reference + rate * t')
-      continue
+    direct = any(str(v) == 't' for v in _vars(ph_u))
+    if direct:
+      # the traced program does not reduce the term  reference + rate * t  as a whole (no cut point): the same clauses are asked directly in t,
+      # with u DEFINED as reference + rate * t (the specification side: phase elapsed since the reference datetime)
+      ph_u = ph0
+      u_def = [u == Q(ref[k]) + Q(rate[k]) * tv]
+    else:
+      u_def = []
+
+    def settle(cname, c, ok_model, kind):
+      ok, model = ok_model
+      if ok or model is None:
+        return
+      # a satisfiable query is settled on the REAL method at the solver's time (and, as the query is in real arithmetic, at nearby times)
+      uval = _fval(model, u)
+      tval = _fval(model, tv) if direct else (uval - ref[k]) / rate[k]
+      for tc in (tval, np.nextafter(tval, np.inf), np.nextafter(tval, -np.inf)):
+        got = float(jax.tree_util.tree_leaves(sr.time_to_orbital_time(tc))[k])
+        uu = ref[k] + rate[k] * tc
+        want = uu - 2 * np.pi * np.floor(uu / (2 * np.pi))
+        dist = abs(got - want)                  # the clause asks for the REDUCED phase (the query compares with u - 2 pi floor(u / 2 pi))
+        bad = (not np.isfinite(got)) or got < 0 or got >= 2 * np.pi if kind == 'range' else (dist > 1e-9 * max(1.0, abs(uu)) and min(want, 2 * np.pi - want) > 1e-6)
+        if bad:
+          ctx.violation(cname, dict(config=c, kind='orbital-phase-' + kind), dict(inputs=dict(time=tc, reference_datetime='1979-03-07T13:20'), obtained=got, expected=want),
+                        f'{cname}: time_to_orbital_time({tc!r}).{nm} = {got!r}, expected {want!r} in [0, 2 pi)')
+          return
+      ctx.error(cname, f'query satisfiable but the real method satisfies the clause at t = {tval!r}')
     # the reduction u -> u - floor(u / 2 pi) 2 pi is decided for |u| <= 2000 rad (z3's mixed integer reasoning does not
     # terminate in the budget for the 2.3e5 rad reached by the daily phase after 100 years): ~318 years of orbital phase, ~318 days of daily phase
     U = min(abs(ref[k]) + abs(rate[k]) * tmax, 2000.0)
     for side, pre in (('positive', [u >= Q(1e-9), u <= Q(U)]), ('negative', [u >= Q(-U), u <= Q(-1e-9)]), ('zero', [u == 0])):
-      ph = specialize([ph_u], pre)[0]
-      c = dict(conf, side=side, cut_point='u = reference + rate * t', u_range=[-U, U])
-      decide(ctx, f'orbital_time.{nm}_in_[0,2pi)', c, pre, z3.Or(ph < 0, ph >= two_pi), 'QF_LIRA')
+      ph = specialize([ph_u], pre)[0] if not direct else ph_u
+      pre = list(pre) + u_def
+      c = dict(conf, side=side, cut_point=('u = reference + rate * t' if not direct else 'none (asked directly in t)'), u_range=[-U, U])
+      settle(f'orbital_time.{nm}_in_[0,2pi)', c, decide(ctx, f'orbital_time.{nm}_in_[0,2pi)', c, pre, z3.Or(ph < 0, ph >= two_pi), 'QF_LIRA'), 'range')
       fl = z3.ToReal(z3.ToInt(u / two_pi))
       tol = Q(1e-9)
-      decide(ctx, f'orbital_time.{nm}_congruent_to_elapsed_time_mod_2pi', c, pre, z3.Or(ph - (u - two_pi * fl) > tol, (u - two_pi * fl) - ph > tol), 'QF_LIRA')
+      settle(f'orbital_time.{nm}_congruent_to_elapsed_time_mod_2pi', c,
+             decide(ctx, f'orbital_time.{nm}_congruent_to_elapsed_time_mod_2pi', c, pre, z3.Or(ph - (u - two_pi * fl) > tol, (u - two_pi * fl) - ph > tol), 'QF_LIRA'), 'congruence')
   # periods: rate * period = 2 pi (to rounding) -> phases repeat modulo 2 pi
   for k, (nm, period) in enumerate((('orbital_phase', year), ('synodic_phase', day))):
     err = abs(rate[k] * period - 2 * np.pi)
